@@ -28,7 +28,8 @@ LEVEL_TEXT = (
     'annotations of the seven functions are pinned by decide. The model is tied to the code by an exhaustive '
     'small-rectangle, all-splits, all-argument-orders and random differential run, as direct calls and through '
     'formulas over real ranges of compiled models, single-sheet and multi-sheet (qualified and unqualified '
-    'references mixed in one argument list, every order).')
+    'references mixed in one argument list, every order), on freshly compiled models and along histories of '
+    'set_cell_value writes on one re-used model, with magnitudes up to products beyond 2**63.')
 LEVEL_NOTE = (
     'Trusted: Lean kernel (propext, Classical.choice, Quot.sound); the hand models Model/C14.lean and '
     'Model/Value.lean (validated by correspondence, not proved equal to the Python); pandas DataFrame '
@@ -44,7 +45,9 @@ TRUSTED = [
     'translator extractors/c14_consts.py (MAX_EMPTY) and a_core.py (function registry with annotations)',
     'pandas.DataFrame construction / .values.flat (row-major, ragged rows padded with None)',
     'IEEE-754 rounding is not modelled: inputs are integers and dyadic fractions so that sums and products are '
-    'exact; AVERAGE is compared within 4 ulp where the quotient is not a double',
+    'exact; AVERAGE is compared within 4 ulp where the quotient is not a double; in the large-magnitude family '
+    'integer-only inputs are compared exactly (Python integers do not round) and inputs holding a float or a '
+    'BLANK (0.0 in SUMPRODUCT) are non-negative and compared within 2**-46 relative',
 ]
 ASSUMPTIONS = [
     'numeric-looking text and booleans inside ranges are outside the domain (Excel ignores them, the code '
@@ -54,6 +57,8 @@ ASSUMPTIONS = [
     'compared with the model only',
     'which error SUMPRODUCT returns for an error item is not constrained (the code returns #N/A, asserted by '
     'its unit test); that SUM/AVERAGE/MIN/MAX return the leftmost error item is checked',
+    'set_cell_value on a formula cell is not part of the histories (the formula keeps computing: C04); writes go '
+    'to value cells inside the ranges and to the precedents of formula cells inside them',
     'ranges are given in normalised form (top-left:bottom-right); sheet titles hold no comma (D0303 of C03)',
     'texts that dateutil reads as a date ("1,2", "1 2", "--1", "1/2", "3rd", "may 5", "jan") are cast by the code '
     '(known finding D23 of C08) and are outside the domain; the non-numeric pool holds only texts that are no '
@@ -212,6 +217,58 @@ class Sheet:
             self.results = eval_sheet(self.cells, self.blanks, self.formulas, self.home,
                                       self.default_sheet)
         return self.results
+
+
+class History:
+    """one compiled model that is re-used: its cells, the aggregate formulas, and a sequence of
+    set_cell_value writes; after every write every formula is evaluated again"""
+
+    def __init__(self):
+        self.cells = {}
+        self.blanks = []
+        self.formulas = []
+        self.steps = []       # (address, value)
+        self.results = None   # results[step][formula index]; step 0 = before the first write
+
+    put = Sheet.put
+
+    def run(self, upto=None):
+        from xlcalculator import ModelCompiler, Evaluator
+        steps = self.steps if upto is None else self.steps[:upto]
+        d = {f'Sheet1!{a}': v for a, v in self.cells.items()}
+        faddrs = []
+        for i, f in enumerate(self.formulas):
+            fa = f'Sheet1!{FCOL}{i + 1}'
+            d[fa] = f
+            faddrs.append(fa)
+        try:
+            model = ModelCompiler().read_and_parse_dict(d)
+            for a in self.blanks:
+                model.set_cell_value(f'Sheet1!{a}', '')
+            ev = Evaluator(model)
+        except Exception as exc:  # noqa: BLE001
+            return [['X:' + type(exc).__name__] * len(faddrs)] * (len(steps) + 1)
+        out = [[call_real(ev.evaluate, fa) for fa in faddrs]]
+        for a, v in steps:
+            try:
+                ev.set_cell_value(f'Sheet1!{a}', v)
+            except Exception as exc:  # noqa: BLE001
+                out.append(['X:' + type(exc).__name__] * len(faddrs))
+                continue
+            out.append([call_real(ev.evaluate, fa) for fa in faddrs])
+        return out
+
+
+class StepView:
+    """the state of a History after `step` writes, with the interface of a Sheet"""
+
+    def __init__(self, hist, step):
+        self.hist, self.step = hist, step
+
+    def evaluate(self):
+        if self.hist.results is None:
+            self.hist.results = self.hist.run()
+        return self.hist.results[self.step]
 
 
 def eval_sheet(cells, blanks, formulas, home='Sheet1', default_sheet=None):
@@ -648,6 +705,141 @@ class Gen:
                 for perm in itertools.permutations(range(len(pairs))):
                     emit(['SUMPRODUCT'], [pairs[i] for i in perm], 'sheets')
 
+    # -- 6c. large magnitudes: integers up to 1e15, products and totals beyond 2**63
+    def big(self):
+        rng = self.rng
+        ints = [3000000000, 4000000000, 2000000000, 2 ** 31, 2 ** 32 - 1, 2 ** 32, 10 ** 15, 10 ** 15 - 1,
+                999999999999, 1234567, 7654321, 9999999, 2 ** 53 + 1, 10 ** 9 + 7, 65537, 2, 5, 1]
+        n = 120 if self.thorough else 16
+
+        def cell(kind):
+            x = rng.random()
+            if x < 0.12:
+                return rng.choice(NONNUM)
+            if x < 0.18:
+                return ''
+            v = rng.choice(ints) if rng.random() < 0.8 else rng.randint(1, 10 ** 15)
+            if kind == 'exact':
+                return v if rng.random() < 0.7 else -v
+            y = rng.random()                      # mixed int / float / BLANK, all terms non-negative
+            if y < 0.35:
+                return float(v) if rng.random() < 0.7 else rng.randint(0, 10 ** 6) / 8
+            if y < 0.42:
+                return None
+            return v
+
+        for i in range(n):
+            kind = 'exact' if i % 2 == 0 else 'mixed'
+            r, c = rng.randint(1, 3), rng.randint(1, 3)
+            arrs = [[[cell(kind) for _ in range(c)] for _ in range(r)] for _ in range(3)]
+            if kind == 'mixed' and not any(isinstance(v, float) for a in arrs[:2] for row in a for v in row):
+                arrs[0][0][0] = float(rng.choice(ints))
+            approx = kind == 'mixed'
+            extra = ['S', rng.choice(ints), rng.choice(['x', 'n', 'ref'])]
+            fa = [(fn, [['R', arrs[0]], extra]) for fn in ('SUM', 'AVERAGE', 'MIN', 'MAX')]
+            fa += [(fn, [['R', arrs[0]]]) for fn in ('SUM', 'AVERAGE', 'COUNT')]
+            fa += [('SUMPRODUCT', [['R', a] for a in arrs[:k]]) for k in (1, 2, 3)]
+            fa += [('SUMPRODUCT', [['R', arrs[1]], ['R', arrs[0]]])]
+            self.both(fa, 'big', approx=approx)
+        # whole numbers only, product / running total at and beyond 2**63
+        for a, b in [([[3000000000], [2]], [[4000000000], [5]]),
+                     ([[3000000000, 3000000000]], [[2000000000, 2000000000]]),
+                     ([[2 ** 32, 2 ** 31]], [[2 ** 31, 2 ** 32]]),
+                     ([[2 ** 62, 1]], [[2, 1]]), ([[-(2 ** 62), -1]], [[2, 1]])]:
+            self.both([('SUMPRODUCT', [['R', a], ['R', b]]), ('SUMPRODUCT', [['R', b], ['R', a]])], 'big')
+        c7 = [[[1234567], [7654321]], [[9999999], [2345678]], [[8765432], [3456789]]]
+        for perm in itertools.permutations(range(3)):
+            self.both([('SUMPRODUCT', [['R', c7[i]] for i in perm])], 'big')
+        self.both([(fn, [['R', [[2 ** 62, 2 ** 62], [2 ** 62, 'abc']]], ['S', 2 ** 63, 'x']])
+                   for fn in ('SUM', 'AVERAGE', 'MIN', 'MAX')], 'big')
+
+    # -- 6d. histories: one compiled model re-used, cells of the ranges rewritten, everything re-evaluated
+    def history(self):
+        rng = self.rng
+        n = 30 if self.thorough else 5
+        nsteps = 14 if self.thorough else 10
+        for _ in range(n):
+            h, w = rng.randint(2, 4), rng.randint(2, 3)
+            grid = rand_rows(rng, h, w, pn=0.55 + 0.3 * rng.random())
+            hist = History()
+            fcell, prec = {}, {}       # formula cells inside the range: (r, c) -> (precedent, factor)
+            for i in range(rng.randint(0, 2)):
+                rc = (rng.randrange(h), rng.randrange(w))
+                if rc in fcell:
+                    continue
+                pa = addr(i, 9)        # J1, J2: outside every range
+                prec[pa] = rng.randint(-9, 9)
+                fcell[rc] = (pa, rng.randint(2, 5))
+                hist.cells[pa] = prec[pa]
+                hist.cells[addr(*rc)] = f'={pa}*{fcell[rc][1]}'
+            for r in range(h):
+                for c in range(w):
+                    if (r, c) not in fcell:
+                        hist.put(addr(r, c), grid[r][c])
+
+            def val(r, c):
+                if (r, c) in fcell:
+                    pa, k = fcell[(r, c)]
+                    return prec[pa] * k
+                return grid[r][c]
+
+            def box(r0, c0, r1, c1):
+                return ('R', r0, c0, r1, c1)
+            whole = box(0, 0, h - 1, w - 1)
+            rr, cc = rng.randrange(h), rng.randrange(w)
+            sub = box(rng.randrange(h - 1), 0, h - 1, rng.randrange(1, w))
+            specs = [(fn, [whole]) for fn in ALLFN]
+            specs += [('SUM', [box(0, 0, h - 1, 0), box(0, 1, h - 1, w - 1)]),
+                      ('AVERAGE', [box(0, 0, 0, w - 1), box(1, 0, h - 1, w - 1)]),
+                      ('SUMPRODUCT', [box(0, 0, h - 1, 0), box(0, 1, h - 1, 1)]),
+                      ('MIN', [whole, ('C', rr, cc)]), ('MAX', [sub]), ('COUNT', [sub]),
+                      ('COUNTA', [box(0, 1, h - 1, 1), ('L', 7)]), ('SUM', [whole, ('L', 1)]),
+                      ('AVERAGE', [sub, ('C', rr, cc)])]
+
+            def text_of(a):
+                if a[0] == 'R':
+                    return f'{addr(a[1], a[2])}:{addr(a[3], a[4])}'
+                return addr(a[1], a[2]) if a[0] == 'C' else lit(a[1])
+
+            def sem_of(a):
+                if a[0] == 'R':
+                    return ['R', [[val(r, c) for c in range(a[2], a[4] + 1)] for r in range(a[1], a[3] + 1)]]
+                return ['S', val(a[1], a[2]), 'ref'] if a[0] == 'C' else ['S', a[1], 'x']
+            texts = [f'={fn}(' + ','.join(text_of(a) for a in spec) + ')' for fn, spec in specs]
+            hist.formulas = texts
+
+            def snapshot(step):
+                view = StepView(hist, step)
+                for fi, (fn, spec) in enumerate(specs):
+                    self.cases.append(dict(fn=fn, args=[sem_of(a) for a in spec], via='formula',
+                                           kind='history', sheet=view, fi=fi, formula=texts[fi]))
+            snapshot(0)
+            plain = [(r, c) for r in range(h) for c in range(w) if (r, c) not in fcell]
+            for step in range(1, nsteps + 1):
+                if prec and rng.random() < 0.25:
+                    pa = rng.choice(sorted(prec))          # a precedent outside the range
+                    prec[pa] = rng.randint(-50, 50)
+                    hist.steps.append((pa, prec[pa]))
+                else:
+                    r, c = rng.choice(plain)
+                    x = rng.random()
+                    old = grid[r][c]
+                    if x < 0.4:
+                        v = rand_num(rng)
+                    elif x < 0.55:
+                        v = rng.choice(NONNUM)
+                    elif x < 0.65:
+                        v = ''
+                    elif x < 0.75:
+                        v = None
+                    elif x < 0.9:
+                        v = rng.choice([1, True, '1', 1.0, 0, False, '0'])     # type twins
+                    else:
+                        v = old                                               # rewritten unchanged
+                    grid[r][c] = v
+                    hist.steps.append((addr(r, c), v))
+                snapshot(step)
+
     # -- 7. outside the domain: compared with the model only
     def probes(self):
         rng = self.rng
@@ -797,7 +989,7 @@ def as_frac(w):
     return None
 
 
-def agrees(real, want, exact):
+def agrees(real, want, exact, rel=Fraction(1, 2 ** 50)):
     """real result (wire) against an exact rational / error wire"""
     if real == want:
         return True
@@ -808,7 +1000,7 @@ def agrees(real, want, exact):
         return True
     if exact:
         return False
-    return abs(a - b) <= abs(b) * Fraction(1, 2 ** 50)
+    return abs(a - b) <= abs(b) * rel
 
 
 def nontrivial(case):
@@ -819,7 +1011,17 @@ def nontrivial(case):
 def public(case):
     """the JSON form of a case (replayable)"""
     d = {k: case[k] for k in ('fn', 'args', 'via', 'kind')}
-    if case['via'] == 'formula':
+    if case.get('approx'):
+        d['approx'] = True
+    if isinstance(case.get('sheet'), StepView):
+        hist, step = case['sheet'].hist, case['sheet'].step
+        d['formula'] = case['formula']
+        d['history'] = {'cells': hist.cells, 'blanks': hist.blanks, 'formulas': hist.formulas,
+                        'steps': [list(x) for x in hist.steps[:step]], 'fi': case['fi']}
+        d['note'] = ('one compiled model: evaluate all formulas, then for each step set_cell_value(address, '
+                     'value) and evaluate all formulas again; the failing result is that of `formula` '
+                     'after the last step')
+    elif case['via'] == 'formula':
         d['formula'] = case['formula']
         d['cells'] = case['sheet'].cells
         d['blanks'] = case['sheet'].blanks
@@ -830,7 +1032,12 @@ def public(case):
 
 def classify(res, case, real, impl, spec, listed, max_empty):
     fn = case['fn']
-    exact = fn != 'AVERAGE'
+    # `approx`: a case of the large-magnitude family that holds a float (or a BLANK in SUMPRODUCT, which
+    # counts as 0.0): the code then folds in doubles beyond 2**53 - all terms are non-negative there,
+    # so the ideal-real value is met within a few ulp per term; integer-only cases stay exact
+    approx = bool(case.get('approx'))
+    exact = fn != 'AVERAGE' and not (approx and fn in ('SUM', 'SUMPRODUCT'))
+    rel = Fraction(1, 2 ** 46) if approx else Fraction(1, 2 ** 50)
     res.evaluations += 1
     res.count('fn:' + fn)
     res.count('via:' + case['via'])
@@ -844,7 +1051,7 @@ def classify(res, case, real, impl, spec, listed, max_empty):
         return
     dom = in_domain(case)
     err = first_error(case['args'])
-    model_ok = agrees(real, impl, exact)
+    model_ok = agrees(real, impl, exact, rel)
     if err is not None:
         res.count('with-error-item')
         if fn in ('SUM', 'AVERAGE', 'MIN', 'MAX'):
@@ -873,7 +1080,7 @@ def classify(res, case, real, impl, spec, listed, max_empty):
     if nontrivial(case):
         res.nontrivial.add(case_line(case))
     g = guards(case, max_empty)
-    if agrees(real, spec, exact):
+    if agrees(real, spec, exact, rel):
         if g:
             res.count('known-region-but-correct')
         if not model_ok:
@@ -913,7 +1120,16 @@ def replay_case(path):
     obj = json.loads(open(path).read())
     inp = obj.get('input', obj)
     case = dict(fn=inp['fn'], args=inp['args'], via=inp['via'], kind=inp.get('kind', 'replay'))
-    if case['via'] == 'formula':
+    if inp.get('approx'):
+        case['approx'] = True
+    if 'history' in inp:
+        h = inp['history']
+        hist = History()
+        hist.cells, hist.blanks = dict(h['cells']), list(h['blanks'])
+        hist.formulas = list(h['formulas'])
+        hist.steps = [tuple(x) for x in h['steps']]
+        case['sheet'], case['fi'], case['formula'] = StepView(hist, len(hist.steps)), h['fi'], inp['formula']
+    elif case['via'] == 'formula':
         sheet = Sheet()
         sheet.cells = dict(inp['cells'])
         sheet.blanks = list(inp['blanks'])
@@ -934,7 +1150,11 @@ def run(ctx):
                 'sheets (plain and quoted titles, different values at the same coordinates) with every ordered pair of '
                 '{range, cell} x {qualified with another sheet, with the own sheet, unqualified} and literals in one '
                 'argument list and longer lists in every order; texts in ranges include digit-bearing non-numbers '
-                '("lot 7", "x1", "0x1F", "1e", "$3", "3%"); '
+                '("lot 7", "x1", "0x1F", "1e", "$3", "3%"); large magnitudes (integers up to 1e15, products and totals beyond '
+                '2**63: integer-only contents exact, contents with a float or BLANK non-negative and within 2**-46); '
+                'histories on one re-used compiled model (cells inside the ranges and precedents of formula cells '
+                'inside them rewritten with set_cell_value - numbers, text, empty string, None, type twins 1/TRUE/"1" - '
+                'and every aggregate re-evaluated after each write against the fold of the values held now); '
                 'each through SUM AVERAGE MIN MAX COUNT COUNTA SUMPRODUCT as a direct call and as a formula '
                 'over ranges of a compiled model; real vs the fold of the statement (exact; mean within 4 ulp) '
                 'and vs the Lean model; non-trivial = distinct request addressing >= 2 values of which >= 1 is a '
@@ -963,6 +1183,8 @@ def run(ctx):
         g.orders()
         g.random_rects()
         g.workbooks()
+        g.big()
+        g.history()
         g.probes()
         cases = g.cases
         res.exhaustive = bool(getattr(g, 'ctx_exhaustive', False))
